@@ -102,13 +102,17 @@ func TestVerifShare(t *testing.T) {
 			rd2 := vlib.SeededReader{R: vlib.Rng(seed, fmt.Sprintf("tkn-share-rand-%d", i))}
 			k2, _ := randomMatrixZp(rd2, rows, cols)
 			l.K = matDigits(k2)
-			for g := len(f.Gates) - 1; g >= 0; g-- {
-				if f.Gates[g].Class == Andgate {
+			gates, err := f.toposort() // the order share() works in (it no longer re-sorts the formula itself)
+			if err != nil {
+				panic(err)
+			}
+			for g := len(gates) - 1; g >= 0; g-- {
+				if gates[g].Class == Andgate {
 					r, _ := randomMatrixZp(rd2, rows, cols)
 					l.Draws = append(l.Draws, matDigits(r))
 				}
 			}
-			for _, g := range f.Gates {
+			for _, g := range gates {
 				l.Gates = append(l.Gates, []int{g.Class, g.In0, g.In1, g.Out})
 			}
 			for _, s := range sh {
